@@ -1,14 +1,19 @@
 #!/bin/bash
-# tools/sweep.sh <tier> <seed...> — every check at several VERIF_SEED values on /repo's current tree;
-# evidence goes to .run/sweep-evidence (the committed evidence stays the VERIF_SEED=1 run).
-cd /verif
+# tools/sweep.sh <tier> <seed...> — every check at several VERIF_SEED values on /repo's current tree.
+# Run directories, replays and evidence of a sweep go to <checkout>/.sweep (VERIF_SCRATCH), so a sweep started
+# with `vp run` from a snapshot never interferes with checks run in /verif; the committed evidence stays the
+# VERIF_SEED=1 run made in /verif itself.
+HERE="$(cd "$(dirname "$0")/.." && pwd)"
+cd "$HERE"
 TIER=$1; shift
+export VERIF_SCRATCH="$HERE/.sweep"
+mkdir -p "$VERIF_SCRATCH/logs"
 for seed in "$@"; do
   for i in $(seq -w 1 20); do
     id=C$i
     s=$(date +%s)
-    VERIF_SEED=$seed VERIF_EVIDENCE_DIR=/verif/.run/sweep-evidence ./check $id $TIER > .run/sweep-$TIER-$seed-$id.log 2>&1; rc=$?
+    VERIF_SEED=$seed ./check $id $TIER > "$VERIF_SCRATCH/logs/sweep-$TIER-$seed-$id.log" 2>&1; rc=$?
     e=$(date +%s)
-    echo "seed=$seed $id rc=$rc $((e-s))s $(grep -m1 -E '^(HELD|VIOLATION|INCONCLUSIVE|KNOWN-FINDING)' .run/sweep-$TIER-$seed-$id.log | cut -c1-160)"
+    echo "seed=$seed $id rc=$rc $((e-s))s $(grep -m1 -E '^(HELD|VIOLATION|INCONCLUSIVE|KNOWN-FINDING)' "$VERIF_SCRATCH/logs/sweep-$TIER-$seed-$id.log" | cut -c1-160)"
   done
 done
